@@ -339,7 +339,9 @@ v("c09-twin-rename-group-terms", "C09", SM,
 
 # ---------------------------------------------------------------- C04
 v("c04-merge-keeps-old-ops_key", "C04", SM,
-  "                # the merged step no longer computes what its original key describes\n                subsql.ops_key = f\"extend({extend_node}, {subsql.terms.keys()})\"\n", "")
+  "                if subsql.ops_key is not None:\n                    subsql.ops_key = f\"{subsql.ops_key}.merged({annotation}, {list(subsql.terms.keys())})\"\n", "")
+v("c04-merge-key-ignores-new-terms", "C04", SM,
+  "                    subsql.ops_key = f\"{subsql.ops_key}.merged({annotation}, {list(subsql.terms.keys())})\"\n", "                    subsql.ops_key = f\"{subsql.ops_key}.merged\"\n")
 v("c04-window-vars-without-order_by", "C04", SM,
   "                window_vars.update(extend_node.order_by)\n", "")
 v("c04-merge-ignores-suffix", "C04", SM,
@@ -398,8 +400,8 @@ v("c16-on-clause-crossed", "C16", SM,
   "                    left_qqn\n                    + \".\"\n                    + self.quote_identifier(c_b)\n                    + \" = \"\n                    + right_qqn\n                    + \".\"\n                    + self.quote_identifier(c_a)")
 v("c16-pandas-full-maps-left", "C16", PB, "            \"full\": \"outer\",", "            \"full\": \"left\",")
 v("c16-pandas-fill-right-from-left", "C16", PB,
-  "                is_null = res[c].isnull()\n                res.loc[is_null, c] = res.loc[is_null, c + \"_tmp_right_col\"]",
-  "                is_null = res[c + \"_tmp_right_col\"].isnull()\n                res.loc[~is_null, c] = res.loc[~is_null, c + \"_tmp_right_col\"]")
+  "                is_null = res[c].isnull()\n                if is_null.any():\n                    res.loc[is_null, c] = res.loc[is_null, c + \"_tmp_right_col\"]",
+  "                is_null = res[c + \"_tmp_right_col\"].isnull()\n                if (~is_null).any():\n                    res.loc[~is_null, c] = res.loc[~is_null, c + \"_tmp_right_col\"]")
 v("c16-pandas-twin-cleanup-on_a-only", "C16", PB,
   "        merged_key_cols = {c_a for c_a, c_b in zip(op.on_a, op.on_b) if c_a == c_b}", "        merged_key_cols = set(op.on_a)")
 v("c16-polars-prefers-right", "C16", "polars_model.py",
@@ -430,7 +432,8 @@ v("c02-cte-key-none-as-text", "C02", "near_sql.py",
   "            ops_key = self.near_sql.ops_key  # None: step has no reliable identity, never share it\n            if ops_key is not None:\n                ops_key = f\"{ops_key}\"\n                if self.columns is not None:\n                    ops_key = f\"{ops_key}_{list(self.columns)}\"\n",
   "            ops_key = f\"{self.near_sql.ops_key}\"\n            if self.columns is not None:\n                ops_key = f\"{ops_key}_{list(self.columns)}\"\n")
 v("c02-merge-keeps-old-ops_key", "C02", SM,
-  "                # the merged step no longer computes what its original key describes\n                subsql.ops_key = f\"extend({extend_node}, {subsql.terms.keys()})\"\n", "")
+  "                if subsql.ops_key is not None:\n                    subsql.ops_key = f\"{subsql.ops_key}.merged({annotation}, {list(subsql.terms.keys())})\"\n", "")
+
 
 # ---------------------------------------------------------------- C13
 PBL = "parse_by_lark.py"
@@ -670,14 +673,14 @@ v("c15-twin-unrelated-constant-key", "C15", PB,
 
 # ---------------------------------------------------------------- C08 (twin removal on every iteration)
 v("c08-twin-kept-when-left-has-no-nulls", "C08", PB,
-  "                is_null = res[c].isnull()\n                res.loc[is_null, c] = res.loc[is_null, c + \"_tmp_right_col\"]\n                res = res.drop(c + \"_tmp_right_col\", axis=1, inplace=False)\n",
+  "                is_null = res[c].isnull()\n                if is_null.any():\n                    res.loc[is_null, c] = res.loc[is_null, c + \"_tmp_right_col\"]\n                res = res.drop(c + \"_tmp_right_col\", axis=1, inplace=False)\n",
   "                is_null = res[c].isnull()\n                if is_null.any():\n                    res.loc[is_null, c] = res.loc[is_null, c + \"_tmp_right_col\"]\n                    res = res.drop(c + \"_tmp_right_col\", axis=1, inplace=False)\n")
 v("c08-twin-twin-drop-hoisted-local", "C08", PB,
-  "                is_null = res[c].isnull()\n                res.loc[is_null, c] = res.loc[is_null, c + \"_tmp_right_col\"]\n                res = res.drop(c + \"_tmp_right_col\", axis=1, inplace=False)\n",
+  "                is_null = res[c].isnull()\n                if is_null.any():\n                    res.loc[is_null, c] = res.loc[is_null, c + \"_tmp_right_col\"]\n                res = res.drop(c + \"_tmp_right_col\", axis=1, inplace=False)\n",
   "                right_c = c + \"_tmp_right_col\"\n                is_null = res[c].isnull()\n                if is_null.any():\n                    res.loc[is_null, c] = res.loc[is_null, right_c]\n                res = res.drop(right_c, axis=1, inplace=False)\n", expect="silent")
 v("c08-twin-loop-continue-form", "C08", PB,
-  "            if c not in merged_key_cols:\n                is_null = res[c].isnull()\n                res.loc[is_null, c] = res.loc[is_null, c + \"_tmp_right_col\"]\n                res = res.drop(c + \"_tmp_right_col\", axis=1, inplace=False)\n",
-  "            if c in merged_key_cols:\n                continue\n            is_null = res[c].isnull()\n            res.loc[is_null, c] = res.loc[is_null, c + \"_tmp_right_col\"]\n            res = res.drop(c + \"_tmp_right_col\", axis=1, inplace=False)\n", expect="silent")
+  "            if c not in merged_key_cols:\n                is_null = res[c].isnull()\n                if is_null.any():\n                    res.loc[is_null, c] = res.loc[is_null, c + \"_tmp_right_col\"]\n                res = res.drop(c + \"_tmp_right_col\", axis=1, inplace=False)\n",
+  "            if c in merged_key_cols:\n                continue\n            is_null = res[c].isnull()\n            if is_null.any():\n                res.loc[is_null, c] = res.loc[is_null, c + \"_tmp_right_col\"]\n            res = res.drop(c + \"_tmp_right_col\", axis=1, inplace=False)\n", expect="silent")
 
 # ---------------------------------------------------------------- C03
 PM = "polars_model.py"
@@ -780,8 +783,8 @@ v("c15-db-auto-key-without-table-probe", "C15", "db_space.py",
   "            while (key in self.description_map.keys()) or self.db_handle.db_model.table_exists(\n                self.db_handle.conn, key\n            ):\n                self.n_tmp = self.n_tmp + 1\n                key = f\"da_temp_{self.n_tmp}\"\n        assert isinstance(key, str)\n        assert isinstance(allow_overwrite, bool)\n        if not allow_overwrite:",
   "            while key in self.description_map.keys():\n                self.n_tmp = self.n_tmp + 1\n                key = f\"da_temp_{self.n_tmp}\"\n        assert isinstance(key, str)\n        assert isinstance(allow_overwrite, bool)\n        if not allow_overwrite:")
 v("c16-pandas-fill-not-for-inner", "C16", PB,
-  "        for c in common_cols:\n            if c not in merged_key_cols:\n                is_null = res[c].isnull()\n                res.loc[is_null, c] = res.loc[is_null, c + \"_tmp_right_col\"]",
-  "        for c in common_cols:\n            if c not in merged_key_cols:\n                is_null = res[c].isnull()\n                if op.jointype != \"INNER\":\n                    res.loc[is_null, c] = res.loc[is_null, c + \"_tmp_right_col\"]")
+  "        for c in common_cols:\n            if c not in merged_key_cols:\n                is_null = res[c].isnull()\n                if is_null.any():",
+  "        for c in common_cols:\n            if c not in merged_key_cols:\n                is_null = res[c].isnull()\n                if is_null.any() and (op.jointype != \"INNER\"):")
 v("c27-mean-allowed-in-ordered-window", "C27", "expr_rep.py", "    \"count\",\n    \"max\",\n    \"mean\",\n    \"median\",\n    \"min\",\n    \"nunique\",\n    \"prod\",", "    \"count\",\n    \"max\",\n    \"median\",\n    \"min\",\n    \"nunique\",\n    \"prod\",")
 v("c12-sqlnode-not-in-eval-env", "C12", "expr_parse_fn.py", "    TableDescription,\n    SQLNode,\n)", "    TableDescription,\n)")
 v("c18-count-numbered-in-row-order", "C18", PB,
@@ -923,8 +926,9 @@ v("d54-twin-sort-key-inline", "C10", PB,
 v("d53-twin-limit-isinstance", "C11", VR,
   "            if int(limit) != limit:\n                raise ValueError(\"limit must be an integer\")\n            limit = int(limit)\n",
   "            if not isinstance(limit, int):\n                raise ValueError(\"limit must be an integer\")\n", expect="silent")
-v("d45-twin-enclose-always", "C04", SM,
-  "                if (sub_suffix is None) or (len(sub_suffix) < 1):\n                    return substr\n", "                if sub_suffix is None:\n                    return substr\n", expect="silent")
+v("d45-twin-enclose-any-suffix", "C04", SM,
+  "                if (sub_suffix is None) or (\n                    not any(\n                        si.strip().upper().startswith((\"ORDER BY\", \"LIMIT\"))\n                        for si in sub_suffix\n                    )\n                ):",
+  "                if (sub_suffix is None) or (len(sub_suffix) < 1):", expect="silent")
 v("d51-twin-polars-drop", "C08", PM,
   "            res = res.select([c for c in res.columns if c not in op.column_deletions])\n        res = res.rename(op.column_remapping)",
   "            res = res.drop([c for c in op.column_deletions])\n        res = res.rename(op.column_remapping)", expect="silent")
@@ -945,7 +949,7 @@ v("d60-twin-and-via-helper", "C24", OS,
 EC = "eval_cache.py"
 v("d61-key-without-types", "C25", EC, '    return f"{d.shape}_{list(d.columns)}_{hash_str}_{type_str}"\n', '    return f"{d.shape}_{list(d.columns)}_{hash_str}"\n')
 v("d61-key-without-dtypes", "C25", EC, "    col_types = [str(t) for t in d.dtypes]\n", "    col_types = []\n")
-v("d61-key-without-cell-types", "C25", EC, "        [type(v).__name__ for v in d[c]]\n", "        [len(d[c])]\n")
+v("d61-key-without-cell-types", "C25", EC, "        [type(v).__name__ for v in d.iloc[:, j]]\n", "        [len(d.iloc[:, j])]\n")
 
 v("d62-absent-arg-specs-dereferenced", "C22", DS,
   "        self.arg_specs = _prep_schema_specification(\n            arg_specs if arg_specs is not None else dict()\n        )\n", "        self.arg_specs = _prep_schema_specification(arg_specs)\n")
@@ -979,13 +983,23 @@ v("d73-negative-limit-accepted", "C18", VR, "            if limit < 0:\n        
 v("d74-pandas-blocks-pasted-by-position", "C17", PB,
   "            for si in split:\n                if not si[blocks_in.record_keys].equals(sk):\n                    raise ValueError(\"blocks do not all hold the same record keys\")\n", "")
 v("d74-polars-blocks-pasted-by-position", "C17", PM,
-  "            for si in split:\n                if si[blocks_in.record_keys].rows() != sk.rows():\n                    raise ValueError(\"blocks do not all hold the same record keys\")\n", "")
+  "            for si in split:\n                if not si[blocks_in.record_keys].equals(sk):\n                    raise ValueError(\"blocks do not all hold the same record keys\")\n", "")
 
 v("d75-sqlite-native-percent", "C05", "SQLite.py",
-  '    return f"({e0} - FLOOR({e0} / (1.0 * {e1})) * {e1})"\n\n\ndef _sqlite_logical_or_expr', '    return f"({e0} % {e1})"\n\n\ndef _sqlite_logical_or_expr')
+  '        f" ELSE ({e0} - FLOOR({e0} / (1.0 * {e1})) * {e1}) END)"\n', '        f" ELSE ({e0} % {e1}) END)"\n')
+v("d85-sqlite-modulo-through-double", "C05", "SQLite.py",
+  "        f\"(CASE WHEN (typeof({e0}) = 'integer') AND (typeof({e1}) = 'integer')\"\n        f\" THEN ((({e0} % {e1}) + {e1}) % {e1})\"\n        f\" ELSE ({e0} - FLOOR({e0} / (1.0 * {e1})) * {e1}) END)\"\n",
+  "        f\"({e0} - FLOOR({e0} / (1.0 * {e1})) * {e1})\"\n")
+v("d88-hash-reads-columns-by-label", "C25", EC,
+  "        [type(v).__name__ for v in d.iloc[:, j]]\n        for j in range(d.shape[1])\n        if str(d.iloc[:, j].dtype) == \"object\"\n",
+  "        [type(v).__name__ for v in d[c]]\n        for c in d.columns\n        if str(d[c].dtype) == \"object\"\n")
+v("d89-bound-kwargs-not-flattened", "C22", DS,
+  "                    if p_def.kind is p_def.VAR_KEYWORD:\n                        # keywords caught by **kwargs are named arguments\n                        check_kwargs.update(check_kwargs.pop(p_name, {}))\n                    elif p_def.kind is p_def.VAR_POSITIONAL:",
+  "                    if p_def.kind is p_def.VAR_POSITIONAL:")
+
 
 v("d76-if-else-none-into-typed-array", "C05", PB,
-  "            if res.dtype.kind in \"iuf\":\n                res = res.astype(float)\n                res[bad_posns] = numpy.nan\n            else:\n                res = res.astype(object)\n                res[bad_posns] = None\n",
+  "            if res.dtype.kind in \"iuf\":\n                res = res.astype(float)\n                res[bad_posns] = numpy.nan\n            elif res.dtype.kind in \"mM\":\n                res[bad_posns] = None  # NaT: dates and durations keep their type\n            else:\n                res = res.astype(object)\n                res[bad_posns] = None\n",
   "            res[bad_posns] = None\n")
 v("d77-concat-spells-missing", "C05", PB,
   "        bad_posns = numpy.logical_or(self.pd.isnull(a), self.pd.isnull(b))\n        if (numpy.ndim(res) > 0) and numpy.any(bad_posns):\n            res = res.astype(object)\n            res[numpy.broadcast_to(bad_posns, res.shape)] = None\n", "")
